@@ -6,7 +6,7 @@ WT=/tmp/wt/try_$ID
 git -C /repo worktree remove --force $WT 2>/dev/null; rm -rf $WT; git -C /repo worktree prune; git -C /repo worktree add -q --detach $WT HEAD
 git -C $WT apply -3 /verif/seeded/$ID/patch.diff 2>/dev/null || { echo "patch failed"; git -C /repo worktree remove --force $WT; exit 2; }
 mkdir -p /tmp/tcheck-try/$ID && cp /verif/known_findings.json /tmp/tcheck-try/$ID/
-TCHECK_REPO=$WT TCHECK_VERIF=/tmp/tcheck-try/$ID /verif/bin/tcheck $PROP --tier $TIER > /tmp/tcheck-try/$ID/out.txt 2>&1
+TCHECK_REPO=$WT TCHECK_VERIF=/tmp/tcheck-try/$ID ${TCHECK_BIN:-/verif/bin/tcheck} $PROP --tier $TIER > /tmp/tcheck-try/$ID/out.txt 2>&1
 rc=$?
 grep -E "violation|undecided|UNDECIDED|VIOLATION" /tmp/tcheck-try/$ID/out.txt | grep -v "^  rule" | head -${LINES_MAX:-8}
 echo "seed=$ID prop=$PROP tier=$TIER exit=$rc"
